@@ -50,6 +50,9 @@ func (v *Verifier) expandConstructs() []string {
 			suffix string
 			isFunc bool
 		}{{"", false}, {"Func", true}} {
+			if fn.isFunc && row.Kind != "group" {
+				continue
+			}
 			name := row.Name + fn.suffix
 			stmtKey := "(*Statement)." + name
 			sfn := v.fnByKey[stmtKey]
@@ -66,6 +69,14 @@ func (v *Verifier) expandConstructs() []string {
 			case "token":
 				item = func(x string) string {
 					return fmt.Sprintf("%s == C_token(mk_token(%s, A_string(%s)))", x, q(row.TokTyp), q(row.TokTxt))
+				}
+			case "tokennull":
+				item = func(x string) string { return fmt.Sprintf("%s == C_token(mk_token(\"null\", A_nil))", x) }
+			case "tokenstr", "tokenany", "tokenrune", "tokenbyte":
+				arg := sfn.Params[1].Name()
+				wrap := map[string]string{"tokenstr": "A_string(%s)", "tokenany": "%s", "tokenrune": "A_int32(%s)", "tokenbyte": "A_uint8(%s)"}[row.Kind]
+				item = func(x string) string {
+					return fmt.Sprintf("%s == C_token(mk_token(%s, %s))", x, q(row.TokTyp), fmt.Sprintf(wrap, arg))
 				}
 			case "group":
 				params := sfn.Params[1:]
@@ -99,18 +110,30 @@ func (v *Verifier) expandConstructs() []string {
 				addClause(c, "ensures", "C14", "once", "calls[f] == old(calls[f]) + 1")
 			}
 			addClause(c, "ensures", "C14,C20", "self", "result == s")
-			addClause(c, "ensures", "C14,C20,C01", "appended", "len(*s) == old(len(*s)) + 1 && (forall j int :: { (*s)[j] } (0 <= j && j < old(len(*s))) ==> (*s)[j] == old((*s)[j]))")
-			addClause(c, "ensures", "C14,C01", "item", item("(*s)[old(len(*s))]"))
+			if fn.isFunc {
+				// the callback is code outside the package: it may have used any exported builder on anything it
+				// can reach (the receiver included), so the postcondition speaks about the last item only
+				addMod(c, "apiEffects")
+				addClause(c, "ensures", "C14,C01", "item", "len(*s) >= 1 && "+item("(*s)[len(*s) - 1]"))
+			} else {
+				addClause(c, "ensures", "C14,C20,C01", "appended", "len(*s) == old(len(*s)) + 1 && (forall j int :: { (*s)[j] } (0 <= j && j < old(len(*s))) ==> (*s)[j] == old((*s)[j]))")
+				addClause(c, "ensures", "C14,C01", "item", item("(*s)[old(len(*s))]"))
+				// C20: the append is in place when capacity allows, otherwise into a fresh backing array
+				addClause(c, "ensures", "C20,C14", "backing", "len(*s) <= cap(*s) && (old(len(*s)) < old(cap(*s)) ? (*s).arr == old((*s).arr) && cap(*s) == old(cap(*s)) : fresh((*s).arr))")
+			}
 			v.contracts.add(c)
 			// func N
 			if f := v.fnByKey[name]; f != nil {
 				c := mk(name, props)
 				if fn.isFunc {
-					addMod(c, "calls[f]")
+					addMod(c, "calls[f]", "apiEffects")
 					addClause(c, "ensures", "C14", "once", "calls[f] == old(calls[f]) + 1")
+					addClause(c, "ensures", "C14,C20,C09", "fresh", "fresh(result)")
+					addClause(c, "ensures", "C14,C01", "item", "len(*result) >= 1 && "+item("(*result)[len(*result) - 1]"))
+				} else {
+					addClause(c, "ensures", "C14,C20,C09", "fresh", "fresh(result) && len(*result) == 1 && fresh((*result).arr)")
+					addClause(c, "ensures", "C14,C01", "item", item("(*result)[0]"))
 				}
-				addClause(c, "ensures", "C14,C20,C09", "fresh", "fresh(result) && len(*result) == 1")
-				addClause(c, "ensures", "C14,C01", "item", item("(*result)[0]"))
 				v.contracts.add(c)
 			}
 			// (*Group).N
@@ -119,11 +142,14 @@ func (v *Verifier) expandConstructs() []string {
 				addClause(c, "requires", "", "recv", "g != nil")
 				addMod(c, "g.items", "tail(g.items)")
 				if fn.isFunc {
-					addMod(c, "calls[f]")
+					addMod(c, "calls[f]", "apiEffects")
 					addClause(c, "ensures", "C14", "once", "calls[f] == old(calls[f]) + 1")
+					// (the item itself is specified on the function form, which this form delegates to)
+					addClause(c, "ensures", "C14,C20,C09", "fresh", "fresh(result)")
+				} else {
+					addClause(c, "ensures", "C14,C20,C09", "fresh", "fresh(result) && len(*result) == 1 && fresh((*result).arr)")
+					addClause(c, "ensures", "C14,C01", "item", item("(*result)[0]"))
 				}
-				addClause(c, "ensures", "C14,C20,C09", "fresh", "fresh(result) && len(*result) == 1")
-				addClause(c, "ensures", "C14,C01", "item", item("(*result)[0]"))
 				if !fn.isFunc {
 					addClause(c, "ensures", "C14", "appended", "len(g.items) == old(len(g.items)) + 1 && g.items[old(len(g.items))] == C_pStatement(result) && (forall j int :: { g.items[j] } (0 <= j && j < old(len(g.items))) ==> g.items[j] == old(g.items[j]))")
 				} else {
